@@ -470,9 +470,13 @@ def evaluate__atan2(self: XPathFunction, context: ta.ContextType = None) -> ta.O
     if self.context is not None:
         context = self.context
 
-    x = self.get_argument(context, cls=NumericProxy)
+    x = self.get_argument(context, required=True, cls=NumericProxy)
     y = self.get_argument(context, index=1, required=True, cls=NumericProxy)
-    return math.atan2(x, y)
+    try:
+        return math.atan2(x, y)
+    except OverflowError as err:
+        # an integer argument too large to be converted to xs:double
+        raise self.error('FOAR0002', err) from None
 
 
 ###
